@@ -18,13 +18,13 @@ import (
 
 func c09Drivers() []concParams {
 	return []concParams{
-		{Name: "writers-vs-close", Cfg: "roomy/bytewise", Clients: [][]string{{"put:a", "put:b"}, {"put:b"}, {"close"}}},
+		{Name: "writers-vs-close", Cfg: "roomy/bytewise", Clients: [][]string{{"put:a", "put:b"}, {"put:b"}, {"close"}}, SQ: 1, ST: 1},
 		{Name: "tr-vs-writer-vs-close", Cfg: "bigbatch/bytewise", Clients: [][]string{{"tr:+a,+b"}, {"put:a"}, {"close"}}, QB: 2, TB: 3},
-		{Name: "compact-vs-close", Cfg: "flushy/bytewise", Pre: []string{"put:a", "put:b"}, Clients: [][]string{{"put:a"}, {"cr"}, {"close"}}, QB: 2, TB: 3},
+		{Name: "compact-vs-close", Cfg: "flushy/bytewise", Pre: []string{"put:a", "put:b"}, Clients: [][]string{{"put:a"}, {"cr"}, {"close"}}, QB: 2, TB: 3, SQ: 1, ST: 1},
 		{Name: "readers-vs-close", Cfg: "tinycache/bytewise", Pre: []string{"put:a", "put:b", "q"}, Clients: [][]string{{"get:a", "iterscan"}, {"snapget:a,b"}, {"close"}}, QB: 1, TB: 2},
-		{Name: "writer-vs-readonly", Cfg: "roomy/bytewise", Clients: [][]string{{"put:a", "put:b"}, {"ro"}, {"get:a"}}},
+		{Name: "writer-vs-readonly", Cfg: "roomy/bytewise", Clients: [][]string{{"put:a", "put:b"}, {"ro"}, {"get:a"}}, SQ: 1, ST: 1},
 		{Name: "two-tables-one-slot-vs-close", Cfg: "tinycache/bytewise", Pre: []string{"put:a", "put:b", "put:c", "cr", "q"}, Clients: [][]string{{"get:a", "get:c", "get:b"}, {"close"}}, QB: 2, TB: 3},
-		{Name: "close-vs-close", Cfg: "roomy/bytewise", Clients: [][]string{{"put:a"}, {"close"}, {"close"}}},
+		{Name: "close-vs-close", Cfg: "roomy/bytewise", Clients: [][]string{{"put:a"}, {"close"}, {"close"}}, SQ: 1, ST: 1},
 	}
 }
 
